@@ -3,11 +3,16 @@ package tpl
 import (
 	"bytes"
 	"context"
+	"errors"
 	"net/http"
 	"strings"
+	"sync"
 
 	"code.gopub.tech/tpl/types"
 )
+
+// ErrNoTemplateSet 还没有成功构建过模板集合(首次构建失败)
+var ErrNoTemplateSet = errors.New("no template set has been built")
 
 // RenderToString 执行一个模板 并将结果输出为字符串
 func RenderToString(tpl types.Template, data any) (string, error) {
@@ -72,6 +77,7 @@ func WithHotReload(hotReload bool) NewHTMLRenderOpt {
 type htmlRender struct {
 	hotReload bool
 	builder   types.Factory
+	mu        sync.RWMutex // 保护 manager: Reload 可以和请求并发
 	manager   types.TemplateManager
 }
 
@@ -82,7 +88,9 @@ func (h *htmlRender) Reload(ctx context.Context) error {
 	if err != nil {
 		return err
 	}
+	h.mu.Lock()
 	h.manager = m
+	h.mu.Unlock()
 	return nil
 }
 
@@ -104,15 +112,18 @@ func (h *htmlRender) Instance(ctx context.Context, tplName string, data any) typ
 // GetTemplate implements types.HTMLRender.
 // 获取一个模板实例.
 func (h *htmlRender) GetTemplate(ctx context.Context, tplName string) (types.Template, error) {
-	var (
-		m   = h.manager
-		err error
-	)
 	if h.hotReload {
-		m, err = h.builder(ctx)
+		m, err := h.builder(ctx)
+		if err != nil {
+			return nil, err
+		}
+		return m.GetTemplate(tplName)
 	}
-	if err != nil {
-		return nil, err
+	h.mu.RLock()
+	m := h.manager
+	h.mu.RUnlock()
+	if m == nil { // 首次构建失败且之后没有成功的 Reload
+		return nil, ErrNoTemplateSet
 	}
 	return m.GetTemplate(tplName)
 }
